@@ -354,6 +354,12 @@ func checkC02(r *core.Run) {
 		{"self-closing-raw-text-element", `<script/>` + S + `</script>`, []string{c02Marker}, false},
 		{"self-closing-raw-text-element", `<script src="/a.js"/><p>` + S + `</p><script>init()</script>`, []string{c02Marker}, false},
 		{"self-closing-raw-text-element", `<style media="print"/>` + S + `</style>`, []string{c02Marker}, false},
+		// the end tag of a raw-text element spelled inside its own start tag is an attribute name or value there
+		{"end-tag-text-inside-start-tag", `<script data-x=</script>` + S + `</script>`, []string{c02Marker}, false},
+		{"end-tag-text-inside-start-tag", `<script </script>` + S + `</script>`, []string{c02Marker}, false},
+		{"end-tag-text-inside-start-tag", `<script async </script >` + S + `</script>`, []string{c02Marker}, false},
+		{"end-tag-text-inside-start-tag", `<style media=</style>` + S + `</style>`, []string{c02Marker}, false},
+		{"end-tag-text-inside-start-tag", `<script data-x=a</script>` + S + `</script>`, []string{c02Marker}, false},
 		{"script-type-attribute", `<script type="text/template">` + S + `</script>`, []string{c02Marker}, false},
 		{"script-type-attribute", `<script type="text/javascript" type="text/plain">` + S + `</script>`, []string{c02Marker}, false},
 		{"script-type-attribute", `<script type="module">` + S + `</script>`, []string{c02Marker}, false},
